@@ -244,9 +244,12 @@ class Guarded:
     def __call__(self, job):
         out = []
         job = list(job)
-        for it in job[self.pos]:
+        for idx, it in enumerate(job[self.pos]):
             one = list(job)
             one[self.pos] = [it]
+            # the element after the item list is the index of the chunk's first item: the function sees each item under its own index
+            if self.pos + 1 < len(one) and isinstance(one[self.pos + 1], int) and not isinstance(one[self.pos + 1], bool):
+                one[self.pos + 1] = job[self.pos + 1] + idx
             try:
                 out.extend(self.fn(tuple(one)))
             except MachineryError:
